@@ -644,3 +644,51 @@ for _kinds in _it2c.product(("const", "literal", "computed", "nested"), repeat=2
         dynamic_types={"self": {"parent": ty.TObj("ASTLowerer", only=("ASTLowerer",))},
                        "self.parent": {"semantic": ty.TOpaque("semantic"), "ir_builder": ty.TObj("IRBuilder", only=("IRBuilder",)), "diagnostics": ty.TOpaque("diag")}},
         properties=("C02",), min_obligations=1, no_replay=True, note=f"elements: {_kinds[0]}, {_kinds[1]}"))
+
+
+# =================================================================================================
+# lower_bundle_select / lower_bundle_any / lower_bundle_all: no combinator — the result reads, from the wire of the bundle's OWN
+# producer, the selected member (b["x"]), anything (any(b)) or everything (all(b)); a non-bundle operand of any()/all() is an error.
+# =================================================================================================
+BS = {}
+
+
+def _bs_lower(ex, a):
+    r = _ghost2(a.expr, "lowered", ty.TUnion((ty.Int, ty.TObj("BundleRef", only=("BundleRef",)), ty.TObj("SignalRef", only=("SignalRef",)))))
+    BS["operand"] = r
+    return r
+
+
+_bs_lower_c = Contract(qualname=ELQ2 + "lower_expr", params={"self": _OPQ, "expr": _OPQ}, effect=_bs_lower, verify=False, note="the lowered operand")
+_bs_const_c = Contract(qualname=IRB + "const", params={"self": _OPQ, "signal_type": _OPQ, "value": _OPQ, "source_ast": _OPQ}, defaults={"source_ast": None},
+                       effect=lambda ex, a: BS.setdefault("const", SObj(["SignalRef"], fresh_name("zero"), lazy=True)), verify=False, note="proved above")
+_bs_err_c = Contract(qualname=ELQ2 + "_error", params={"self": _OPQ, "message": _OPQ, "node": _OPQ}, defaults={"node": None}, effect=lambda ex, a: BS.setdefault("errors", []).append(a.message),
+                     verify=False, note="records a compile error")
+_BS_USES = {"ExpressionLowerer.lower_expr": _bs_lower_c, "IRBuilder.const": _bs_const_c, "ExpressionLowerer._error": _bs_err_c,
+            "IRBuilder.allocate_implicit_type": Contract(qualname=IRB + "allocate_implicit_type", params={"self": _OPQ}, effect=lambda ex, a: z3.String("fresh_implicit_type"), verify=False,
+                                                         note="fresh implicit type name"),
+            "ExpressionLowerer.ir_builder": "inline"}
+_BS_DYN = {"self": {"parent": ty.TObj("ASTLowerer", only=("ASTLowerer",))}, "self.parent": {"ir_builder": ty.TObj("IRBuilder", only=("IRBuilder",))}}
+
+
+def _bs_post(want_type, bundle_only):
+    def post(a, res):
+        v = BS.get("operand")
+        is_bundle = isinstance(v, SObj) and "BundleRef" in v._cls_set
+        is_sig = isinstance(v, SObj) and not is_bundle
+        if is_bundle or (is_sig and not bundle_only):
+            t = want_type(a)
+            return And(isa(res, "SignalRef"), res.source_id is v.source_id, (res.signal_type is t) if not isinstance(t, str) else (res.signal_type == t), not BS.get("errors"))
+        return len(BS.get("errors", [])) == 1 and res is BS.get("const")
+    return post
+
+
+for _fn, _cls, _want, _bonly, _what in (
+        ("lower_bundle_select", "BundleSelectExpr", lambda a: a.expr.signal_type, False, "the selected member read from the bundle's own producer"),
+        ("lower_bundle_any", "BundleAnyExpr", lambda a: "signal-anything", True, "signal-anything over the bundle's own producer; a non-bundle is an error"),
+        ("lower_bundle_all", "BundleAllExpr", lambda a: "signal-everything", True, "signal-everything over the bundle's own producer; a non-bundle is an error")):
+    CONTRACTS.append(Contract(
+        qualname=ELQ2 + _fn, params={"self": ty.TObj("ExpressionLowerer", only=("ExpressionLowerer",)),
+                                     "expr": ty.TObj(_cls, only=(_cls,), ftypes=(("signal_type", ty.Str), ("bundle", ty.TObj("Expr"))))},
+        requires=[("(reset capture)", lambda a: BS.clear() or True)],
+        ensures=[(_what, _bs_post(_want, _bonly))], uses=_BS_USES, dynamic_types=_BS_DYN, properties=("C02", "C06"), min_obligations=2, no_replay=True))
